@@ -477,6 +477,8 @@ pub fn run(r: &Report) {
     // (a)
     let mut txs = gen::txs_witness_classes();
     txs.extend(gen::txs_shapes());
+    txs.extend(gen::txs_input_variants());
+    txs.extend(gen::txs_degenerate_witness());
     for c in crate::props::c03::sig_cases(false).iter().step_by(3) {
         txs.push(c.tx.clone());
     }
